@@ -14,11 +14,7 @@
 (* A run may fail in any stage; nothing later then happens, the report     *)
 (* exists only once `printed` is reached and the JSON only after that.     *)
 (***************************************************************************)
-EXTENDS Naturals, Sequences, TLC
-
-Pass == << "reservoir_calculated", "wellbores_calculated", "surfaceplant_calculated" >>
-Expected(dh) == << "model_created", "params_read" >> \o Pass \o (IF dh THEN Pass ELSE << >>)
-                \o << "economics_calculated", "calculated", "printed", "json_written" >>
+EXTENDS LifecycleDef, TLC
 
 VARIABLES dh, hist, failed, report, json
 vars == <<dh, hist, failed, report, json>>
@@ -36,7 +32,6 @@ Fail == /\ ~failed /\ Len(hist) < Len(Expected(dh))
 Next == Step \/ Fail
 Spec == Init /\ [][Next]_vars /\ WF_vars(Step \/ Fail)
 
-IsPrefix(a, b) == Len(a) <= Len(b) /\ \A k \in 1..Len(a) : a[k] = b[k]
 Count(s, x) == LET RECURSIVE C(_) C(k) == IF k = 0 THEN 0 ELSE C(k - 1) + (IF s[k] = x THEN 1 ELSE 0) IN C(Len(s))
 
 Ordered          == IsPrefix(hist, Expected(dh))
